@@ -87,8 +87,18 @@ fn main() {
     }
     let seed: u64 = std::env::var("VERIF_SEED").ok().and_then(|s| s.parse().ok()).unwrap_or(1);
     // a subject panic inside a case is caught per case; keep the default hook quiet
-    std::panic::set_hook(Box::new(|_| {}));
-    let code = checks::dispatch(&prop, tier, seed, replay);
+    if std::env::var("VERIF_PANIC").is_err() {
+        std::panic::set_hook(Box::new(|_| {}));
+    }
+    // a panic of the harness itself is a machinery failure (exit 2), never a verdict
+    let code = match std::panic::catch_unwind(std::panic::AssertUnwindSafe(|| checks::dispatch(&prop, tier, seed, replay))) {
+        Ok(c) => c,
+        Err(p) => {
+            let msg = p.downcast_ref::<String>().cloned().or_else(|| p.downcast_ref::<&str>().map(|s| s.to_string())).unwrap_or_default();
+            eprintln!("MACHINERY: the check itself panicked: {} (set VERIF_PANIC=1 for the location)", msg);
+            2
+        }
+    };
     std::process::exit(code);
 }
 
